@@ -52,6 +52,9 @@ type round struct {
 	At     *atSpec   `json:"at"`
 	Kill   *killSpec `json:"kill"`
 	Clean  bool      `json:"clean"`
+	// Refuse: after the round's appends the log is offered one message it must refuse (larger than the 20 000 000 bytes an
+	// entry of the commit log may hold), then two ordinary messages.  A refused append is not an append.
+	Refuse bool `json:"refuse"`
 }
 type scenario struct {
 	Rounds []round `json:"rounds"`
@@ -74,7 +77,7 @@ func emit(v map[string]interface{}) {
 	os.Stdout.Write(append(b, '\n'))
 }
 
-func child(dir string, run int, length uint64, nappend int, at *atSpec, kill *killSpec, clean bool, sched bool) {
+func child(dir string, run int, length uint64, nappend int, at *atSpec, kill *killSpec, clean bool, sched bool, refuse bool) {
 	persisted := uint64(0)
 	if b, err := ioutil.ReadFile(filepath.Join(dir, "publish_distributor.state")); err == nil && len(b) == 8 {
 		persisted = binary.BigEndian.Uint64(b)
@@ -100,6 +103,18 @@ func child(dir string, run int, length uint64, nappend int, at *atSpec, kill *ki
 		}
 	}
 	appendN(nappend)
+	if refuse {
+		big := make([]byte, 20000100)
+		copy(big, strconv.FormatUint(next, 10))
+		err := log.Append(&packet.Publish{Header: &packet.Header{Qos: 1}, Topic: []byte("mp/t"), Payload: big})
+		if err == nil {
+			next++ // accepted after all: an entry like any other (its payload is its offset, padded)
+			emit(map[string]interface{}{"op": "append", "n": 1})
+		} else {
+			emit(map[string]interface{}{"op": "append.refused", "err": err.Error()})
+		}
+		appendN(2)
+	}
 	die := func(point string, off uint64) {
 		emit(map[string]interface{}{"op": "kill", "point": point, "off": off})
 		syscall.Kill(os.Getpid(), syscall.SIGKILL)
@@ -133,7 +148,7 @@ func child(dir string, run int, length uint64, nappend int, at *atSpec, kill *ki
 		// nothing new to consume beyond the replay of the stored offset: still run the consumer once
 	}
 	handOver := func(off uint64, p *packet.Publish) error {
-		ok := p != nil && bytes.Equal(p.Payload, []byte(strconv.FormatUint(off, 10)))
+		ok := p != nil && bytes.Equal(bytes.TrimRight(p.Payload, "\x00"), []byte(strconv.FormatUint(off, 10)))
 		emit(map[string]interface{}{"op": "handed", "off": off, "intact": ok})
 		if kill != nil && kill.Point == "incb" && kill.Off == off {
 			die("incb", off)
@@ -190,6 +205,9 @@ func runScenario(self string, idx int, s scenario) [][]byte {
 		if s.Sched {
 			args = append(args, "-sched")
 		}
+		if rd.Refuse {
+			args = append(args, "-refuse")
+		}
 		cmd := exec.Command(self, args...)
 		var buf bytes.Buffer
 		cmd.Stdout = &buf
@@ -241,6 +259,7 @@ func main() {
 	killS := flag.String("kill", "", "")
 	clean := flag.Bool("clean", false, "")
 	schedF := flag.Bool("sched", false, "")
+	refuseF := flag.Bool("refuse", false, "")
 	scn := flag.String("scenarios", "", "")
 	outp := flag.String("out", "trace.ndjson", "")
 	jobs := flag.Int("jobs", 8, "")
@@ -260,7 +279,7 @@ func main() {
 			kill.Point = (*killS)[:i]
 			kill.Off, _ = strconv.ParseUint((*killS)[i+1:], 10, 64)
 		}
-		child(*dir, *run, *length, *nappend, at, kill, *clean, *schedF)
+		child(*dir, *run, *length, *nappend, at, kill, *clean, *schedF, *refuseF)
 		return
 	}
 	self, _ := os.Executable()
